@@ -165,13 +165,20 @@ func DecodeInlineImage(op Operator, res *Resources) ([]byte, error) {
 	// chain filters
 	var r io.Reader = bytes.NewReader(data)
 	var closers []io.Closer
+	closeAll := func() {
+		for i := len(closers) - 1; i >= 0; i-- {
+			closers[i].Close()
+		}
+	}
 	for _, fs := range filters {
 		f, err := pdf.MakeFilter(fs.name, fs.parms)
 		if err != nil {
+			closeAll()
 			return nil, err
 		}
 		rc, err := f.Decode(pdf.V2_0, r, budget)
 		if err != nil {
+			closeAll()
 			return nil, err
 		}
 		closers = append(closers, rc)
